@@ -204,4 +204,72 @@ theorem decodeOptionsLoop_keys (fuel : Nat) : ∀ (seen : List Nat) (d : Bytes) 
       · simpa using hns
       · exact fun hs => hmem k hk (Or.inr hs)
 
+/-! ### bytes → dict → bytes -/
+
+theorem optInfo_some {k s : Nat} {f : OptFmt} (h : optInfo k = some (s, f)) :
+    (k = 0 ∧ s = 4 ∧ f = .I) ∨ (k = 1 ∧ s = 16 ∧ f = .S16) ∨ (k = 2 ∧ s = 1 ∧ f = .B) ∨
+    (k = 3 ∧ s = 2 ∧ f = .H) ∨ (k = 4 ∧ s = 1 ∧ f = .B) ∨ (k = 128 ∧ s = 16 ∧ f = .S16) := by
+  unfold optInfo at h
+  split at h <;> simp_all
+
+theorem rdOptVal_inv {t size : Nat} {fmt : OptFmt} {r2 r3 : Bytes} {v : OptVal}
+    (hi : optInfo t = some (size, fmt)) (h : rdOptVal fmt r2 = .ok (v, r3)) :
+    encodeOption t v ++ r3 = u8 t ++ (u8 size ++ r2) ∧ OptEntryWF t v := by
+  rcases optInfo_some hi with ⟨rfl, rfl, rfl⟩ | ⟨rfl, rfl, rfl⟩ | ⟨rfl, rfl, rfl⟩ | ⟨rfl, rfl, rfl⟩ | ⟨rfl, rfl, rfl⟩ | ⟨rfl, rfl, rfl⟩
+  all_goals simp only [rdOptVal, Except.map] at h
+  all_goals split at h
+  all_goals first | (cases h; done) | skip
+  all_goals simp only [Except.ok.injEq, Prod.mk.injEq] at h
+  all_goals obtain ⟨rfl, rfl⟩ := h
+  · obtain ⟨rfl, hn⟩ := rdU32_inv ‹rdU32 r2 = _›
+    simp [encodeOption, optInfo, OptEntryWF, hn]
+  · obtain ⟨rfl, hn⟩ := rd_inv ‹rd 16 r2 = _›
+    simp [encodeOption, optInfo, OptEntryWF, hn, pad16_of_length hn]
+  · obtain ⟨rfl, hn⟩ := rdU8_inv ‹rdU8 r2 = _›
+    simp [encodeOption, optInfo, OptEntryWF, hn]
+  · obtain ⟨rfl, hn⟩ := rdU16_inv ‹rdU16 r2 = _›
+    simp [encodeOption, optInfo, OptEntryWF, hn]
+  · obtain ⟨rfl, hn⟩ := rdU8_inv ‹rdU8 r2 = _›
+    simp [encodeOption, optInfo, OptEntryWF, hn]
+  · obtain ⟨rfl, hn⟩ := rd_inv ‹rd 16 r2 = _›
+    simp [encodeOption, optInfo, OptEntryWF, hn, pad16_of_length hn]
+
+/-- whatever `decode_options` accepts is exactly the encoding of the dict it returns (wire order = dict order):
+    an option block has one reading only -/
+theorem decodeOptionsLoop_sound (fuel : Nat) : ∀ (seen : List Nat) (d : Bytes) (o : Opts),
+    decodeOptionsLoop fuel seen d = .ok o → encodeOptions o = d ∧ ∀ kv ∈ o, OptEntryWF kv.1 kv.2 := by
+  induction fuel with
+  | zero => intro seen d o h; simp [decodeOptionsLoop] at h
+  | succ f ih =>
+    intro seen d o h
+    unfold decodeOptionsLoop at h
+    split at h
+    · cases h
+      rename_i he
+      simp only [List.isEmpty_iff] at he
+      simp [encodeOptions, he]
+    · repeat' split at h
+      all_goals first | (cases h; done) | skip
+      simp only [Except.ok.injEq] at h
+      subst h
+      obtain ⟨rfl, -⟩ := rdU8_inv ‹rdU8 d = _›
+      rename_i hA hB
+      clear hA hB
+      obtain ⟨rfl, -⟩ := rdU8_inv ‹rdU8 _ = _›
+      obtain ⟨e1, w1⟩ := rdOptVal_inv ‹optInfo _ = _› ‹rdOptVal _ _ = _›
+      obtain ⟨e2, w2⟩ := ih _ _ _ ‹decodeOptionsLoop f _ _ = _›
+      refine ⟨?_, ?_⟩
+      · simp only [encodeOptions, e2, e1]
+        simp_all
+      · intro kv hkv
+        simp only [List.mem_cons] at hkv
+        rcases hkv with rfl | hkv
+        · exact w1
+        · exact w2 kv hkv
+
+/-- an accepted option block is exactly the encoding of the dict it yields, and that dict is well-formed -/
+theorem decodeOptions_sound (d : Bytes) (o : Opts) (h : decodeOptions d = .ok o) : encodeOptions o = d ∧ OptsWF o := by
+  obtain ⟨e, w⟩ := decodeOptionsLoop_sound _ [] d o h
+  exact ⟨e, (decodeOptionsLoop_keys _ [] d o h).1, w⟩
+
 end Nx.Prudp
